@@ -14,7 +14,7 @@ func init() {
 		Explanation: "Decides the refusal clauses of abbreviated-ID resolution, not agreement with git rev-parse on every expression: (ambiguous-abbreviation-refused) in Repository.ResolveRevision the loop over the candidates of an abbreviated object ID " +
 			"contains a rejecting return guarded by an inequality of the hashes of two commits (the commit already chosen and the one a further candidate names), so an abbreviation naming several commits is refused rather than resolved to the first; " +
 			"(minimum-abbreviation) resolveHashPrefix yields no candidate for fewer than four hex digits (git's MINIMUM_ABBREV); (name-lookup-order) git's order full ID, reference, abbreviated ID: with the name not a full ID and a reference of that name found, no path reaches the append of the abbreviation's candidates without the reference's hash appended before (found and fixed: a branch called `311188e` lost to the commit 311188e…), with a full ID the ID comes first, " +
-			"and an unresolvable name ends in ErrReferenceNotFound; (regex-search-youngest-first) `^{/regex}` searches the history with the committer-time iterator, so the youngest matching commit wins as in git (found and fixed: preorder took the first match along the first-parent chain); (last-digit-checked) resolveHashPrefix returns the candidates found for the whole bytes of a prefix unfiltered only on paths where the prefix is known to have an even number of digits, so the last digit of an odd-length abbreviation is always compared; the revision parser package keeps no package-level state. Not decided: ~, ^, ^{/regex} navigation, reflog syntax, disambiguation by object type beyond 'names a commit'.",
+			"and an unresolvable name ends in ErrReferenceNotFound; (regex-search-youngest-first) `^{/regex}` searches the history with the committer-time iterator, so the youngest matching commit wins as in git (found and fixed: preorder took the first match along the first-parent chain); (bang-special-only-at-regex-start) every case of the parser's `^{/…}` scanner that looks at the exclamation mark also requires the regex read so far to be empty, so `!!` and `!-` mean something only right after the slash; (last-digit-checked) resolveHashPrefix returns the candidates found for the whole bytes of a prefix unfiltered only on paths where the prefix is known to have an even number of digits, so the last digit of an odd-length abbreviation is always compared; the revision parser package keeps no package-level state. Not decided: ~, ^, ^{/regex} navigation, reflog syntax, disambiguation by object type beyond 'names a commit'.",
 		Assumptions: []string{},
 		Run:         runC47,
 	})
@@ -23,6 +23,7 @@ func init() {
 func runC47(c *Ctx) {
 	p := c.P
 	PackagesStateFree(c, "codec-state-free", "internal/revision")
+	checkBangOnlyAtRegexStart(c, "bang-special-only-at-regex-start")
 	pk := p.Pkg("git")
 	if pk == nil {
 		c.Unresolved("ambiguous-abbreviation-refused", "package git", 0, "not loaded")
